@@ -30,6 +30,16 @@ def _lt(p, extra=""):
 
 
 CLAIMS = {p: _lt(p) for p in ["C01", "C02", "C03", "C04", "C05", "C06", "C07", "C08", "C09", "C10", "C11", "C16", "C17", "C37"]}
+for _p in ("C01", "C02"):
+    CLAIMS[_p]["level"] = "model_checking"
+    CLAIMS[_p]["text"] = ("TLC checks spec/SatLedger.tla exhaustively for small constants: blocks built from every choice of inputs, output "
+                          "values (fees, zero-value outputs, same-block spends) and coinbase claims; the range ledger of spec/Ranges.tla -- "
+                          "the reference that LedgerTrace folds -- refines the literal per-sat BIP assignment (every outpoint's ranges "
+                          "flatten to its sat sequence, lost ranges to the lost sats, in order), sats are partitioned over unspent outputs "
+                          "and lost, values equal range totals, normalisation and sat lookup preserve meaning. ") + CLAIMS[_p]["text"]
+    CLAIMS[_p]["technique"] = ("TLC model checking of the range ledger against the per-sat BIP assignment (spec/SatLedger.tla) + "
+                               "TLA+ trace validation with TLC (spec/LedgerTrace.tla) of traces recorded from the real indexer")
+ENGINES[0]["kind_free_text"] += "; spec/SatLedger.tla model-checks the range-based reference ledger (spec/Ranges.tla) against the literal per-sat BIP transcription"
 
 
 _PNOTE = ("trusted: TLC, the harness, mockcore, redb's durability; content equality is judged on a digest of all table rows "
